@@ -233,6 +233,11 @@ func (g *gen) discharge(base string, opt dischargeOpts) []result {
 				add(symRe.FindAllString(st.term, -1))
 			}
 			incl := make([]bool, len(as))
+			for i := range as {
+				if len(as[i].syms) == 0 && as[i].def == "" && i < o.nAsserts {
+					incl[i] = true // ground axioms (no symbols), e.g. class facts
+				}
+			}
 			inclO := make([]bool, k)
 			for len(work) > 0 {
 				s := work[len(work)-1]
